@@ -85,8 +85,8 @@ fn by_value(buf: ConcurrentStackRB<usize, N>, rng: &mut Rng, hist: &mut String, 
     Ok(())
 }
 
-fn one(rng: &mut Rng, sessions: &mut usize, byvalue: &mut usize) -> Result<(), String> {
-    let mut hist = String::new(); let mut next = 100usize;
+fn one(rng: &mut Rng, sessions: &mut usize, byvalue: &mut usize, hist: &mut String) -> Result<(), String> {
+    hist.clear(); let mut next = 100usize;
     if rng.next(4) == 0 {
         // the local variant: by-reference splits only
         let mut buf = LocalStackRB::<usize, N>::default();
@@ -96,7 +96,7 @@ fn one(rng: &mut Rng, sessions: &mut usize, byvalue: &mut usize) -> Result<(), S
     let mut buf = ConcurrentStackRB::<usize, N>::default();
     for _ in 0..(1 + rng.next(4)) { let three = rng.next(2) == 0; let nx = &mut next; sync_session!(buf, rng, hist, nx, three); *sessions += 1; }
     *byvalue += 1; *sessions += 1;
-    by_value(buf, rng, &mut hist, &mut next)
+    by_value(buf, rng, hist, &mut next)
 }
 
 /// C07 / C08 for a stack buffer that is boxed by a by-value async split: once the last iterator is gone the box is released exactly once
@@ -151,7 +151,16 @@ fn main() {
     let mut rng = Rng(seed.wrapping_mul(0x9E3779B97F4A7C15) ^ 0xA24BAED4963EE407);
     let (mut sessions, mut byvalue) = (0usize, 0usize);
     for _ in 0..count {
-        if let Err(w) = one(&mut rng, &mut sessions, &mut byvalue) { println!("MISMATCH {}", w); std::process::exit(1); }
+        // a panic inside the crate during a session of legal operations is a departure in its own right: report the session so far
+        let mut hist = String::new();
+        match std::panic::catch_unwind(std::panic::AssertUnwindSafe(|| one(&mut rng, &mut sessions, &mut byvalue, &mut hist))) {
+            Ok(Ok(())) => {}
+            Ok(Err(w)) => { println!("MISMATCH {}", w); std::process::exit(1); }
+            Err(e) => {
+                let msg = e.downcast_ref::<String>().cloned().or_else(|| e.downcast_ref::<&str>().map(|x| x.to_string())).unwrap_or_default();
+                println!("MISMATCH {}: the crate PANICKED in this split / operation: {}", hist, msg.replace('\n', " ")); std::process::exit(1);
+            }
+        }
     }
     // constructors with an item type whose default is not the all-zero pattern: every slot of a `default` buffer holds the default
     {
